@@ -4,6 +4,7 @@ CONSTANTS
   MaxLines = 5
   LimitN = 3
   MaxFds = 0
+  DeferPop = FALSE
   Guided = TRUE
   TSet = {1, 2, 5, 8, 10, 12, 14, 19, 21, 22}
 INVARIANTS Refines StructOK FreshAfterError BodyBound ContinueRule FilesOrdered AttachRule Witnesses
